@@ -85,15 +85,40 @@ def module_source(case):
          "from zope.interface.declarations import Declaration",
          ""]
     builtin = case.get("builtin", {})
+    idef, cdef = case.get("idef", {}), case.get("cdef", {})
+    oldstyle, meta, falsy = case.get("oldstyle", {}), set(case.get("meta", [])), case.get("falsy")
+    if falsy:
+        # a metaclass that makes the class OBJECT falsy (its instances are ordinary)
+        L.append("class Falsy(type):\n    def %s\n" % (
+            "__len__(cls):\n        return 0" if falsy == "len" else "__bool__(cls):\n        return False"))
+
+    def indent(text, n):
+        return "\n".join((" " * n + ln) if ln else ln for ln in text.split("\n"))
+
     for i, bases in enumerate(case["ifaces"]):
         bs = ", ".join("I%d" % b for b in bases) or "Interface"
-        L.append("class I%d(%s):\n    def m%d(x):\n        'method of I%d'\n" % (i, bs, i, i))
+        stmt = "class I%d(%s):\n    def m%d(x):\n        'method of I%d'" % (i, bs, i, i)
+        how = idef.get(str(i))
+        if how == "func":     # the class statement runs inside a function; published as a module global
+            L.append("def _make_I%d():\n%s\n    return I%d\n\nI%d = _make_I%d()\n" % (i, indent(stmt, 4), i, i, i))
+        elif how == "nested":  # ... or in the body of another class
+            L.append("class OuterI%d:\n%s\n\nI%d = OuterI%d.I%d\n" % (i, indent(stmt, 4), i, i, i))
+        else:
+            L.append(stmt + "\n")
     for c, bases in enumerate(case["classes"]):
         if str(c) in builtin:
             L.append("C%d = %s\n" % (c, builtin[str(c)]))
             continue
-        bs = ", ".join("C%d" % b for b in bases)
-        L.append("class C%d(%s):\n    def meth%d(self):\n        return %d\n" % (c, bs, c, c))
+        hdr = ["C%d" % b for b in bases] + (["metaclass=Falsy"] if (falsy and c in meta) else [])
+        body = ""
+        if str(c) in oldstyle:
+            xs = oldstyle[str(c)]
+            body = "    __implemented__ = %s\n" % ("I%d" % xs[0] if len(xs) == 1 else "(%s)" % ", ".join("I%d" % i for i in xs))
+        stmt = "class C%d(%s):\n%s    def meth%d(self):\n        return %d" % (c, ", ".join(hdr), body, c, c)
+        if cdef.get(str(c)) == "nested":
+            L.append("class Outer%d:\n%s\n\nC%d = Outer%d.C%d\n" % (c, indent(stmt, 4), c, c, c))
+        else:
+            L.append(stmt + "\n")
     names = []
     for k, op in enumerate(case["ops"]):
         kind, tgt, arg, alt, wrap = parse_op(op)
@@ -294,8 +319,16 @@ def run_case_(k, case, tmpdir, mode):
         items.append(("inst", o, x))
 
     allowed_globals = {(modname, "I%d" % i) for i in range(len(N.ifaces))}
+    allowed_strings = []
     for x in N.classes:
         allowed_globals.add((x.__module__, x.__qualname__))
+        if type(x) is not type:
+            allowed_globals.add((type(x).__module__, type(x).__qualname__))
+        if "." in x.__qualname__:
+            # protocols < 4 reach a nested class as getattr(Outer, 'C'): still nothing but names
+            outer, last = x.__qualname__.rsplit(".", 1)
+            allowed_globals.update({(x.__module__, outer), ("builtins", "getattr"), ("__builtin__", "getattr")})
+            allowed_strings.append(last)
         if x.__module__ == "builtins":
             # protocols 0..2 write the Python 2 spelling of the same name (fix_imports)
             import _compat_pickle
@@ -340,7 +373,8 @@ def run_case_(k, case, tmpdir, mode):
                         (("__provides__" in y.__dict__) == ("__provides__" in x.__dict__))
                     # for an instance "same" means: it carries the identical declaration object (or none)
                     ob["same"] = y.__dict__.get("__provides__") is x.__dict__.get("__provides__")
-                bad = scan(pay, allowed_globals, list(attrs) + ["__provides__"] if is_inst else [], is_inst)
+                bad = scan(pay, allowed_globals,
+                           allowed_strings + (list(attrs) + ["__provides__"] if is_inst else []), is_inst)
                 ob["badops"], ob["bad"] = len(bad), bad[:6]
             except Exception as e:
                 ob["exc"] = type(e).__name__
@@ -352,7 +386,9 @@ def run_case_(k, case, tmpdir, mode):
                           "attrs": attrs, "has_provides": is_inst and "__provides__" in x.__dict__})
     names = {"module": modname,
              "inames": [[x.__module__, x.__name__] for x in N.ifaces],
-             "cnames": [[x.__module__, x.__qualname__] for x in N.classes]}
+             "cnames": [[x.__module__, x.__qualname__] for x in N.classes],
+             "metas": {str(c): [type(x).__module__, type(x).__qualname__]
+                       for c, x in enumerate(N.classes) if type(x) is not type}}
     job = {"module": modname, "nif": len(N.ifaces), "ncl": len(N.classes), "items": job_items,
            "builtin": list(case.get("builtin", {}).values())}
     return {"names": names, "items": out_items}, job
